@@ -92,10 +92,16 @@ RemoveAt(d, p) ==
        IF d.k = "obj" /\ HasKey(d, f.k) THEN
             IF rest = <<>> THEN O(DropKey(d.v, f.k)) ELSE O(InsertKV(d.v, f.k, RemoveAt(ValOf(d, f.k), rest)))
        ELSE d
+  ELSE IF f.t = "wild" THEN
+       \* every element of an array / member of an object: all of them go, or the rest of the path is removed inside each
+       IF d.k = "arr" THEN (IF rest = <<>> THEN A(<<>>) ELSE A([i \in 1..Len(d.v) |-> RemoveAt(d.v[i], rest)]))
+       ELSE IF d.k = "obj" THEN (IF rest = <<>> THEN O(<<>>) ELSE O([i \in 1..Len(d.v) |-> <<d.v[i][1], RemoveAt(d.v[i][2], rest)>>]))
+       ELSE d
   ELSE IF d.k = "arr" /\ Pos(f.i, Len(d.v)) > 0 THEN
             LET at == Pos(f.i, Len(d.v)) IN IF rest = <<>> THEN A(DropAt(d.v, at)) ELSE A([d.v EXCEPT ![at] = RemoveAt(@, rest)])
        ELSE d
-Remove(d, p) == IF Concrete(p) /\ p # <<>> THEN [st |-> "ok", d |-> RemoveAt(d, p)] ELSE [st |-> "open"]
+\* remove takes away everything the path matches (also through wildcards): afterwards the path matches nothing
+Remove(d, p) == IF p # <<>> THEN [st |-> "ok", d |-> RemoveAt(d, p)] ELSE [st |-> "open"]
 
 \* ---- what Lisp sees of a JSON value (bag-get, bag-native): nil for null, false and empty containers ------------------
 \* lisp values: [k |-> "nil"], "t", "int", "float", "str", "list" (v: seq), "alist" (v: seq of <<key, value>>)
@@ -129,7 +135,9 @@ Conflate(j) == CASE j.k = "bool" -> IF j.v THEN j ELSE Null
 (* Generator: documents and histories                                      *)
 (***************************************************************************)
 \* floats: also one that needs all 17 significant digits, a huge and a tiny one
-Scalars == {Null, B(TRUE), I(0), I(-7), F("1.5"), F("0.30000000000000004"), S(""), S("x y"), Big("9223372036854775808")}
+Scalars == {Null, B(TRUE), I(0), I(-7), F("1.5"), F("0.30000000000000004"), S(""), S("x y"), Big("9223372036854775808"),
+            \* strings whose text is that of a literal of another kind
+            S("true"), S("null"), S("12"), S("1.5e3")}
            \cup (IF Level = 1 THEN {} ELSE {B(FALSE), I(2147483647), S("q\"\\"), F("-0.25"), F("1e+300"), F("5e-324"), F("1.2345678912345679e+08"), Big("-123456789012345678901234567890")})
 Smalls == {A(<<I(1), S("s")>>), O(<<<<"a", I(1)>>>>), A(<<>>), O(<<>>)}
 Docs == Scalars \cup Smalls
